@@ -104,12 +104,33 @@ impl Prop for C01Prop {
             }
         }
         // small scope: every payload over {00, 1b, 01, 1a, 55} up to length 4 (thorough: 6)
-        let maxlen = if tier == Tier::Thorough { 6 } else { 4 };
+        let maxlen = if tier == Tier::Thorough { 6 } else { 5 };
         for (i, p) in gen::all_strings(&[0x00, 0x1b, 0x01, 0x1a, 0x55], maxlen).into_iter().enumerate() {
             let fe = fes[i % fes.len()];
             let enc = if (i / fes.len()) % 2 == 0 { Enc::Buf } else { Enc::Iter };
             let buf = if fe == Fe::Decode || i % 3 == 0 { BufKind::Vec } else { BufKind::Arr(fe::ladder_at_least(p.len())) };
             v.push(Scenario::Link(scn_for(p, enc, fe, buf, "directed-small-scope")));
+        }
+        // checksum sweep: two payload bytes run through all values, so that the frame's CRC bytes
+        // take (nearly) every value - in particular 1b, 1a, 01 and 00 - for every tail shape
+        let bs: usize = if tier == Tier::Thorough { 256 } else { 48 };
+        for tail in 0..4usize {
+            for lenmod in 0..4usize {
+                for a in 0..256usize {
+                    for b in 0..bs {
+                        if (a + b + tail + lenmod) % 4 != 0 && tier == Tier::Quick {
+                            continue;
+                        }
+                        let mut p = vec![a as u8, (b * 5 + 3) as u8];
+                        while (p.len() + tail) % 4 != lenmod {
+                            p.push(0x42);
+                        }
+                        p.extend(std::iter::repeat(0x1b).take(tail));
+                        let fe = fes[(a + b) % fes.len()];
+                        v.push(Scenario::Link(scn_for(p, Enc::Ref, fe, BufKind::Vec, "directed-crc-sweep")));
+                    }
+                }
+            }
         }
         // lengths around the 8-bit pad counter wrap through the iterator encoder
         let lens: Vec<usize> = (252..=260).chain(1020..=1028).chain(if tier == Tier::Thorough { 65532..=65540 } else { 0..=0 }).collect();
